@@ -518,6 +518,18 @@ func runC14(c *mc.Ctx) {
 	if c.Thorough() {
 		encs = append(encs, c14Enc{Key: 0, P: 19, M: 784931, Count: 100000}, c14Enc{Key: 0, P: 32, M: 1 << 32, Count: 70000})
 	}
+	// quotient ladder (see c13QuotientLadder): every unary run length 0..139 in the first code word and,
+	// at eight bit alignments, in the second
+	for _, p := range mc.Pick(c, []uint8{0, 1, 19, 20, 32}, []uint8{0, 1, 2, 7, 8, 16, 19, 20, 24, 30, 31, 32}) {
+		m, sets := c13QuotientLadder(0, p)
+		for _, set := range sets {
+			var ih []string
+			for _, it := range set {
+				ih = append(ih, mc.Hex(it))
+			}
+			encs = append(encs, c14Enc{Key: 0, P: p, M: m, Items: ih})
+		}
+	}
 	c.Space("encodings and serialisation round trips", int64(len(encs)))
 	c.ParFor(int64(len(encs)), func(w *mc.W, i int64) {
 		w.State()
